@@ -33,16 +33,19 @@ type flattenOpts struct {
 
 func (o flattenOpts) Mode() string {
 	switch {
+	case o.Expand: // "Flatten with Expand": the Minimal flag does not change what the properties demand of an Expand run
+		return "expand"
 	case o.Minimal:
 		return "min"
-	case o.Expand:
-		return "expand"
 	}
 	return "full"
 }
 
 func (o flattenOpts) String() string {
 	s := o.Mode()
+	if o.Expand && o.Minimal {
+		s += "+minimal"
+	}
 	if o.RemoveUnused {
 		s += "+ru"
 	}
